@@ -74,6 +74,7 @@ func checkC15(w *World, r *Report) {
 	r.Explanation += " Rules added in later rounds: (R15.6) the registry map is never replaced; (R15.7) Exists of file-backed loaders answers true only behind a file-system query (also through predicate closures). (R15.8) the engine's boolean switches store independently of remembered state. (R15.9) a file-reading Load reads the file before every successful return."
 	r.Explanation += " Round 9: (R15.10) a loader handed to RegisterLoader is appended whatever it looks like (nil test / identity only)."
 	r.Explanation += " Round 10: (R15.11) not-found is not memoised; (R15.12) timestamps of cached templates are not rewritten; (R15.13) only the loading path gives a template a loader."
+	r.Explanation += " Round 11: (R15.11) also for Exists; (R15.15) loader walks do not classify errors."
 	r.RuleText = "obligation = one return / store / loop / comparison in the cache and loader code; non-trivial = all"
 	r.Trusted = []string{"fmt.Errorf %w semantics", "range over a slice visits elements in index order"}
 
@@ -239,6 +240,7 @@ func checkC15(w *World, r *Report) {
 	checkLoadersAlwaysRegistered(w, r)
 	checkCachedTimestampsKept(w, r)
 	checkOnlyLoadingGivesALoader(w, r)
+	checkLoaderLoopsDoNotJudgeErrors(w, r)
 	// loaders are only appended
 	n2 := 0
 	for _, fn := range w.pkgFuncs() {
@@ -1465,9 +1467,10 @@ func checkExistsAndRegistry(w *World, r *Report) {
 	// missing although the file is there now — with caching off, in development mode, whatever.
 	n11 := 0
 	for _, fn := range w.pkgFuncs() {
-		if fn.Name() != "Load" || fn.Signature.Recv() == nil || fn.Synthetic != "" {
+		if (fn.Name() != "Load" && fn.Name() != "Exists") || fn.Signature.Recv() == nil || fn.Synthetic != "" {
 			continue
 		}
+		isExists := fn.Name() == "Exists"
 		rt := fn.Signature.Recv().Type()
 		if !types.Implements(rt, iface) && !types.Implements(types.NewPointer(deref(rt)), iface) {
 			continue
@@ -1523,11 +1526,21 @@ func checkExistsAndRegistry(w *World, r *Report) {
 				return
 			}
 			res := retResults(ret)
-			if len(res) == 0 || !errorSurelyNonNil(res[len(res)-1], ret.Block()) {
+			if len(res) == 0 {
+				return
+			}
+			if isExists {
+				if !isConstBool(res[0], false) {
+					return
+				}
+			} else if !errorSurelyNonNil(res[len(res)-1], ret.Block()) {
 				return
 			}
 			n11++
 			construct := "a failing return is not decided by a memo"
+			if isExists {
+				construct = "the answer `does not exist` is not decided by a memo"
+			}
 			bad := ""
 			for _, c := range controllingConds(in) {
 				if m := memoLookup(c); m != "" {
@@ -1854,4 +1867,66 @@ func checkOnlyLoadingGivesALoader(w *World, r *Report) {
 		})
 	}
 	r.floor("stores of Template.loader", n, 1)
+}
+
+// checkLoaderLoopsDoNotJudgeErrors — R15.15: whether the next loader is asked does not depend on
+// what kind of error the previous one returned.  In a function that walks a list of loaders, no
+// return inside the walk is decided by an errors.Is / errors.As classification of a loader's
+// error: loaders are not required to wrap ErrTemplateNotFound when they do not have a name (the
+// compiled loader and user loaders do not), so "anything but not-found is fatal" stops the chain at
+// the first loader that merely lacks the template, and the later loader that has it is never asked.
+func checkLoaderLoopsDoNotJudgeErrors(w *World, r *Report) {
+	loaderT := w.lookup("Loader").Type()
+	n := 0
+	for _, fn := range w.pkgFuncs() {
+		// walks a []Loader?
+		var elem ssa.Value
+		instrsOf(fn, func(in ssa.Instruction) {
+			if ia, ok := in.(*ssa.IndexAddr); ok && elem == nil {
+				if sl, ok := ia.X.Type().Underlying().(*types.Slice); ok && types.Identical(sl.Elem(), loaderT) {
+					if _, isConst := ia.Index.(*ssa.Const); !isConst && ia.Referrers() != nil {
+						for _, ref := range *ia.Referrers() {
+							if u, ok := ref.(*ssa.UnOp); ok && u.Op == token.MUL {
+								elem = u
+							}
+						}
+					}
+				}
+			}
+		})
+		if elem == nil {
+			continue
+		}
+		n++
+		bad := ""
+		instrsOf(fn, func(in ssa.Instruction) {
+			ret, ok := in.(*ssa.Return)
+			if !ok || bad != "" {
+				return
+			}
+			// inside the walk: dominated by the element's block
+			eb := elem.(ssa.Instruction).Block()
+			if !(eb == ret.Block() || eb.Dominates(ret.Block())) {
+				return
+			}
+			for _, c := range iterationConds(in, elem) {
+				var facts []condFact
+				expandCond(c, true, &facts, 0)
+				for _, cf := range facts {
+					if call, ok := cf.v.(*ssa.Call); ok {
+						if f := calleeFunc(call); isFunc(f, "errors", "", "Is") || isFunc(f, "errors", "", "As") {
+							bad = w.posOf(call.Pos())
+						}
+					}
+				}
+			}
+		})
+		construct := "leaving the walk over the loaders does not depend on the kind of a loader's error"
+		if bad == "" {
+			r.ok("R15.15", ssaName(fn), construct, w.posOf(fn.Pos()), "no return inside the walk is controlled by errors.Is / errors.As", true)
+		} else {
+			r.bad("R15.15", ssaName(fn), construct, bad, "a return inside the walk is decided by classifying a loader's error: a loader that does not have the name but reports that in its own words ends the search, and a later loader that has the template is never consulted")
+		}
+	}
+	r.floor("functions walking a list of loaders", n, 2)
 }
